@@ -558,7 +558,7 @@ def staticReply (P : Program) (obs : Option Obs) : String :=
     decide ((nodes.map fun n => fqid n.path).Nodup) &&
     (match obs with
      | some obs => obs.outs.all fun o => J.clean o.2
-     | none => true)
+     | none => true) && ctlNoSplitList s.2
   let (denV, rtV, kindR) : String × String × String :=
     match obs with
     | none => ("na", "na", "")
@@ -577,7 +577,7 @@ def staticReply (P : Program) (obs : Option Obs) : String :=
       let fragR0 := !(fragT || fragE) && callGraphAcyclicB P && wellTypedRB P && acyclicB P.table &&
         treeOkPList [] s.2 &&
         decide ((nodes.map fun n => fqid n.path).Nodup) && decide ((occ.map (·.1)).Nodup) &&
-        (obs.outs.all fun o => J.clean o.2)
+        (obs.outs.all fun o => J.clean o.2) && treeOkRList [] [] s.2 && ctlNoSplitList s.2
       let fragR := fragR0 && idxOkTList P.table P.nfuel ρ [] s.2
       let d := den P O
       let t := twoPhaseT P fqid ρ
